@@ -1,11 +1,16 @@
 #![allow(clippy::too_many_arguments, clippy::type_complexity)]
 pub mod actors;
 pub mod dynh;
+pub mod families;
+pub mod genp;
+pub mod index;
 pub mod interp;
 pub mod log;
+pub mod oracle;
 pub mod prog;
 pub mod rng;
 pub mod rt;
+pub mod runner;
 pub mod scenario;
 pub mod vexec;
 
@@ -21,6 +26,10 @@ pub fn panic_msg(p: &Box<dyn std::any::Any + Send>) -> String {
     }
 }
 
+fn arg<'a>(args: &'a [String], name: &str) -> Option<&'a str> {
+    args.iter().position(|a| a == name).and_then(|i| args.get(i + 1)).map(|s| s.as_str())
+}
+
 fn main() {
     std::panic::set_hook(Box::new(|info| {
         if info.payload().is::<actors::InjectedPanic>() {
@@ -30,28 +39,57 @@ fn main() {
             eprintln!("panic: {info}");
         }
     }));
-    use prog::*;
-    let mut p = Program::new();
-    let mut a = ActorDecl::plain(1);
-    a.holders = vec![0, 1];
-    a.mailbox = Some(1);
-    a.entry = Entry::BuilderOwning;
-    p.actors.push(a);
-    p.clients.push(vec![
-        Op::Send { slot: 0, script: vec![PStep::Sleep(2)], cancel: None },
-        Op::Call { slot: 0, script: vec![], cancel: None },
-        Op::Stop { slot: 0 },
-        Op::Join { slot: 1, cancel: None },
-    ]);
-    p.clients.push(vec![
-        Op::Call { slot: 0, script: vec![PStep::Interval(1)], cancel: None },
-        Op::Sleep(3),
-        Op::Ping { slot: 0, cancel: None },
-        Op::Await { slot: 0, by_ref: false },
-    ]);
-    let t = scenario::run_l1(&p, scenario::RunCfg { seed: 1, policy: vexec::Policy::Uniform, spurious_permille: 0, max_steps: 100000 });
-    for e in &t.events {
-        println!("{}", log::fmt_ev(e));
+    let args: Vec<String> = std::env::args().collect();
+    match args.get(1).map(|s| s.as_str()) {
+        // hv shard --prop C01 --tier quick --seed 1 --shard 0 --nshards 16 --plan mailbox:4000,x:100 --out f --replays dir
+        Some("shard") => {
+            let plan = arg(&args, "--plan")
+                .unwrap_or("")
+                .split(',')
+                .filter(|s| !s.is_empty())
+                .map(|s| {
+                    let (n, c) = s.split_once(':').expect("plan item name:count");
+                    (n.to_string(), c.parse().expect("count"))
+                })
+                .collect();
+            let a = runner::ShardArgs {
+                prop: arg(&args, "--prop").expect("--prop").to_string(),
+                thorough: arg(&args, "--tier") == Some("thorough"),
+                seed: arg(&args, "--seed").and_then(|s| s.parse().ok()).unwrap_or(0),
+                shard: arg(&args, "--shard").and_then(|s| s.parse().ok()).unwrap_or(0),
+                nshards: arg(&args, "--nshards").and_then(|s| s.parse().ok()).unwrap_or(1),
+                plan,
+                out: arg(&args, "--out").expect("--out").to_string(),
+                replay_dir: arg(&args, "--replays").unwrap_or("/verif/replays/tmp").to_string(),
+                deadline_s: arg(&args, "--deadline").and_then(|s| s.parse().ok()).unwrap_or(1e9),
+            };
+            runner::run_shard(&a);
+        }
+        // hv replay --prop C01 --profile mailbox --case-seed N [--thorough] [--trace]
+        Some("replay") => {
+            let prop = arg(&args, "--prop").expect("--prop");
+            let pname = arg(&args, "--profile").expect("--profile");
+            let cs: u64 = arg(&args, "--case-seed").and_then(|s| s.parse().ok()).expect("--case-seed");
+            let thorough = args.iter().any(|a| a == "--thorough");
+            let (prog, tr, rep) = runner::run_case(prop, runner::profile(pname), cs, thorough);
+            if args.iter().any(|a| a == "--trace") {
+                println!("{:#?}", prog);
+                for e in &tr.events {
+                    println!("{}", log::fmt_ev(e));
+                }
+            }
+            println!("outcomes: clients={:?} settle={:?} cleanup={:?} polls={}", tr.clients_outcome, tr.settle_outcome, tr.cleanup_outcome, tr.steps);
+            println!("premises: {:?}", rep.premises);
+            for v in &rep.violations {
+                println!("REPLAY-VIOLATION property={} rule={} sig={} :: {} at {:?}", v.prop, v.rule, v.sig, v.msg, v.at);
+            }
+            if rep.violations.is_empty() {
+                println!("REPLAY-OK");
+            }
+        }
+        _ => {
+            eprintln!("usage: hv shard|replay ...");
+            std::process::exit(2);
+        }
     }
-    println!("{:?} {:?} {:?} steps={}", t.clients_outcome, t.settle_outcome, t.cleanup_outcome, t.steps);
 }
